@@ -118,6 +118,16 @@ def generate(rng, tier, mult):
                 ops = [op_new("GET", "1.1", "http", "a.test", "/", []), "proceed", "write_head #4096", "proceed",
                        "raw_try_response %s" % hx(head[:-cut]), "proceed", "q_must_close", "q_close_reason", "proceed", "q_must_close", "q_close_reason"]
                 out.append({"ops": ops, "meta": {"combo": ["partial-redirect", sconn, order, cut]}})
+    # headers OTHER than Connection whose value is "close", on the request and on the response: not a close condition (seeded change
+    # C10-21 compared the value of every field and ignored the name)
+    for rv, sv in (("1.1", "1.1"),):
+        for where in ("request", "response", "both"):
+            rq = [(b"proxy-connection", b"close"), (b"x-circuit", b"close")] if where in ("request", "both") else []
+            rs = [(b"Proxy-Connection", b"close"), (b"X-Circuit", b"close")] if where in ("response", "both") else []
+            head = render_response_head(sv, 200, b"OK", rs + [(b"Content-Length", b"0")])
+            ops = [op_new("GET", rv, "http", "a.test", "/", rq), "proceed", "write_head #4096", "proceed",
+                   "raw_try_response %s" % hx(head), "proceed", "q_must_close", "q_close_reason", "proceed", "q_must_close", "q_close_reason"]
+            out.append({"ops": ops, "meta": {"combo": [rv, "absent", "get", sv, 200, "len0", "absent"]}})
     # the exchange that follows a redirect: the redirected request inherits the version and the Connection fields of the original, so the
     # client-side conditions hold for it as well (the next flow is built like any other: seeded change C10-18 built it by hand)
     for rv, rconn, sconn, policy in itertools.product(["1.0", "1.1"], REQ_CONN, ["absent", "close", "keep-alive"], ["never", "same_host"]):
